@@ -12,7 +12,10 @@ From KG Require Import Prelude.
 Open Scope Z_scope.
 
 Inductive qphase := QBefore | QConnecting | QStreaming | QPlain.
-Record scl := mkScl { s_name : Z; s_aliases : list Z; s_neps : Z }.
+(* s_pre: the server lists synced before the requests start, one entry per sync, each giving the state of
+   endpoints 0..s_neps-1 (0 = not in the list, 1 = enabled, 2 = disabled:true); after them one more sync
+   lists every endpoint enabled — that is the state in which the requests run and the removal happens *)
+Record scl := mkScl { s_name : Z; s_aliases : list Z; s_neps : Z; s_pre : list (list Z) }.
 Record sreq := mkSreq { qcl : nat; qep : Z; qph : qphase; qvia : nat }.   (* qep = -1: catch-all policy *)
 Inductive saction := ADelete (cl : nat) | ARemove (cl : nat) (eps : list Z) | ANone.
 
